@@ -68,6 +68,13 @@ func (svc *service) receiver() {
 			if err != nil {
 				if !isEOF(err) {
 					log.Debugf("(%s) Reading from connection failed: %v", svc.cid(), err)
+
+					// The keep alive has expired or the connection is broken:
+					// nothing more will come from it. Close it, so that a sender
+					// blocked in a write to a peer that does not read, and with it
+					// a processor waiting for room in the outgoing buffer, end as
+					// well. Otherwise nobody would ever get to stop this service.
+					conn.Close()
 				}
 				return
 			}
